@@ -77,25 +77,36 @@ def derive(case: dict) -> dict:
         A = [[LN2_100 * float(a) for a in row] for row in Aint]
         b = [-sum(A[i][j] * float(xs[j]) for j in range(n)) for i in range(n)]
         c = F(1, 2 ** min(ms))
+        out = {"A": A, "b": b, "C": C, "d": d, "y0": y0, "xs": xs, "xs0": xs, "tol": tol, "P": P, "Pinv": Pinv, "z0": z0,
+               "ms": ms, "kappa": fro(P) * fro(Pinv), "c": float(c)}
         if case.get("shift"):
-            # a parameter change between the calls moves the steady state by delta; the search restarts from y0
-            b0 = b
+            # a parameter change between the calls moves the steady state by delta; the search continues from the
+            # state the earlier run reached (xs0 / z0 describe the flow BEFORE the change, xs / d the one after)
             xs = [x + fr(dl) for x, dl in zip(xs, case["shift"])]
-            d = [x - y for x, y in zip(xs, matvec(C, xs))]
-            z0 = matvec(Pinv, [a - x for a, x in zip(y0, xs)])
-            return {"A": A, "b": b, "b0": b0, "C": C, "d": d, "y0": y0, "xs": xs, "tol": tol, "P": P, "z0": z0, "ms": ms,
-                    "kappa": fro(P) * fro(Pinv), "c": float(c)}
-        return {"A": A, "b": b, "C": C, "d": d, "y0": y0, "xs": xs, "tol": tol, "P": P, "z0": z0, "ms": ms,
-                "kappa": fro(P) * fro(Pinv), "c": float(c)}
+            out.update(b0=b, xs=xs, d=[x - y for x, y in zip(xs, matvec(C, xs))])
+        return out
     if kind == "accumulate":  # dx/dt = b: no steady state
         bb = [F(x) for x in case["b"]]
         n = len(bb)
         I = [[F(int(i == j)) for j in range(n)] for i in range(n)]
         return {"A": [[0.0] * n for _ in range(n)], "b": [float(x) for x in bb], "C": I, "d": [100 * x for x in bb],
                 "y0": [F(y) for y in case["y0"]], "xs": None, "tol": tol}
-    if kind == "grow":  # dx/dt = +ln2/100 x: doubles every step
-        return {"A": [[LN2_100]], "b": [0.0], "C": [[F(2)]], "d": [F(0)], "y0": [F(y) for y in case["y0"]],
+    if kind == "grow":  # dx/dt = +g ln2/100 x: grows by 2^g every step (g = 8, 16: overflows within the budget)
+        g = case.get("g", 1)
+        return {"A": [[g * LN2_100]], "b": [0.0], "C": [[F(2 ** g)]], "d": [F(0)], "y0": [F(y) for y in case["y0"]],
                 "xs": None, "tol": tol}
+    if kind == "blowup":
+        # dx/dt = x^2 on the first variable (x(t) = x0 / (1 - x0 t): finite-time blow-up at 1/x0), the others relax to
+        # zs with factor 2^-m per step.  Exact rational flow until the singularity; then the solver must give up.
+        ms, zs = case["ms"], [fr(z) for z in case["zs"]]
+        n = 1 + len(ms)
+        A = [[0.0] * n for _ in range(n)]
+        b = [0.0] * n
+        for i, (m, z) in enumerate(zip(ms, zs), start=1):
+            A[i][i] = -LN2_100 * m
+            b[i] = LN2_100 * m * float(z)
+        return {"A": A, "b": b, "C": [[F(1, 2 ** m)] for m in ms], "d": zs, "blow": True,
+                "y0": [fr(case["x0"])] + [fr(z) for z in case["z0"]], "xs": None, "tol": tol}
     if kind == "rotate":  # undamped rotation by atan2(4,3) per step: the norm of the difference never shrinks
         return {"A": [[0.0, -OMEGA], [OMEGA, 0.0]], "b": [0.0, 0.0], "C": [[F(3, 5), F(-4, 5)], [F(4, 5), F(3, 5)]],
                 "d": [F(0), F(0)], "y0": [F(y) for y in case["y0"]], "xs": None, "tol": tol}
@@ -116,6 +127,10 @@ def const_par(p):
     return 0.0 * p
 
 
+def square(x):
+    return x * x
+
+
 def build_model(dv, y0_in_model):
     from mxlpy import Model
     n = len(dv["y0"])
@@ -130,6 +145,8 @@ def build_model(dv, y0_in_model):
     for i in range(n):
         m.add_reaction(f"v{i}", partial(lin_row_shift, dv["A"][i], dv["b0"][i] if "b0" in dv else dv["b"][i], n),
                        args=names + shifts, stoichiometry={names[i]: 1})
+    if dv.get("blow"):
+        m.add_reaction("vblow", square, args=[names[0]], stoichiometry={names[0]: 1})
     return m, names
 
 
@@ -171,6 +188,12 @@ def real_case(case: dict) -> dict:
                 sim.simulate(prior[1], steps=prior[2])
             else:
                 sim.simulate_time_course(np.linspace(0, prior[1], prior[2] + 1))
+            held = sim.get_result().unwrap_or_err().variables
+            out_start = {"t": float(held.index[-1]), "y": [float(x) for x in held.iloc[-1][names]]}
+        else:
+            out_start = None
+        if case.get("override"):
+            sim.update_variable(names[0], float(F(case["override"])))
         if case.get("shift"):  # the user changes a parameter on the same simulator, then searches again
             sim.update_parameters({f"dx{i}": float(F(dl)) for i, dl in enumerate(case["shift"])})
         sim.simulate_to_steady_state(tolerance=tol, rel_norm=case["rel"])
@@ -181,13 +204,19 @@ def real_case(case: dict) -> dict:
                 pass
         res = sim.get_result()
         val = res.value
+        if case.get("late_par"):
+            # the user goes on with the simulator / model after taking the result: the result's (lazily computed) fluxes
+            # must still be those of ITS parameters
+            sim.update_parameter("dx0", float(F(case["late_par"])))
         if type(val).__name__ == "Simulation":
             v = val.variables
             fl = val.fluxes
             out = {"outcome": "steady", "t": float(v.index[-1]), "rows": int(v.shape[0]),
-                   "y": [float(x) for x in v.iloc[-1][names]], "flux": [float(x) for x in fl.iloc[-1]]}
+                   "y": [float(x) for x in v.iloc[-1][names]], "flux": [float(x) for x in fl.iloc[-1]],
+                   "start": out_start}
         else:
             out = {"outcome": type(val).__name__}
+            out["start"] = out_start
             try:
                 res.unwrap_or_err()
                 out["unwrap"] = "returned"
@@ -203,35 +232,87 @@ def real_case(case: dict) -> dict:
 
 
 # ----------------------------------------------------------------------------- oracle (closed form)
+MAX_STEPS = 1000  # python oracle only; the Lean side reads max_steps / step_size from the source
+STEP = 100
+
+
 def norm_sq(v):
     return sum(x * x for x in v)
 
 
-def exact_state(dv, n):
+def start_of(case, dv, r):
+    """(t_start, y_start): the state the simulator holds when the search is called — after an earlier call the last
+    stored row of the REAL run (the floats as exact Fractions; `expected_start` checks them against the closed form),
+    with the user's override applied; else (0, y0)"""
+    st = r.get("start")
+    if st is None:
+        return F(0), list(dv["y0"])
+    y = [F(v) for v in st["y"]]
+    if case.get("override"):
+        y[0] = F(case["override"])
+    return F(st["t"]), y
+
+
+def expected_start(case, dv):
+    """closed form (floats) of the state a run over [0, T] reaches, independent of the real run"""
+    T = case["prior"][1]
+    y0 = [float(y) for y in dv["y0"]]
+    kind = case["kind"]
+    if kind == "stable":
+        z = [float(zi) * 2.0 ** (-m * T / 100.0) for zi, m in zip(dv["z0"], dv["ms"])]
+        return [float(x) + sum(float(p) * zz for p, zz in zip(row, z)) for x, row in zip(dv["xs0"], dv["P"])]
+    if kind == "accumulate":
+        return [y + b * T for y, b in zip(y0, dv["b"])]
+    if kind == "grow":
+        return [y0[0] * 2.0 ** (T / 100.0)]
+    co, si = math.cos(OMEGA * T), math.sin(OMEGA * T)
+    return [co * y0[0] - si * y0[1], si * y0[0] + co * y0[1]]
+
+
+def start_ok(case, dv, r):
+    st = r["start"]
+    exp = expected_start(case, dv)
+    scale = max(1.0, max(abs(e) for e in exp))
+    return st["t"] == float(case["prior"][1]) and all(abs(a - e) <= 1e-4 * scale for a, e in zip(st["y"], exp))
+
+
+def flow(dv, y_start):
+    """y_start, y(100), y(200), ... on the exact flow (Fractions): closed form for the stable networks (a different
+    computation path from the model's iteration), iteration of the affine map for the others"""
+    yield list(y_start)
+    if dv.get("blow"):
+        y = list(y_start)
+        while True:
+            if 100 * y[0] >= 1:  # the singularity lies within this step: no state, the solver gives up
+                yield None
+                return
+            y = [y[0] / (1 - 100 * y[0])] + [z + (a - z) * c[0] for a, z, c in zip(y[1:], dv["d"], dv["C"])]
+            yield y
     if dv["xs"] is None:
-        y = dv["y0"]
-        for _ in range(n):
+        y = list(y_start)
+        while True:
             y = [a + b for a, b in zip(matvec(dv["C"], y), dv["d"])]
-        return y
-    z = [zi * F(1, 2 ** (m * n)) for zi, m in zip(dv["z0"], dv["ms"])]
-    return [x + y for x, y in zip(dv["xs"], matvec(dv["P"], z))]
+            yield y
+    z0 = matvec(dv["Pinv"], [a - x for a, x in zip(y_start, dv["xs"])])
+    n = 0
+    while True:
+        n += 1
+        z = [zi * F(1, 2 ** (m * n)) for zi, m in zip(z0, dv["ms"])]
+        yield [x + y for x, y in zip(dv["xs"], matvec(dv["P"], z))]
 
 
-def oracle(case, dv, max_steps=1000):
-    """first n in 1..max_steps with ||diff|| < tol on the closed-form flow; ratios ||diff||/tol up to there"""
+def oracle(case, dv, y_start, max_steps=MAX_STEPS):
+    """first n in 1..max_steps with ||diff|| < tol on the exact flow from y_start (None: none within the budget — the
+    criterion is evaluated over the WHOLE budget for every family); ratios ||diff||/tol up to there; the state
+    before the decisive step"""
     tol2 = dv["tol"] ** 2
     ratios = []
-    if dv["xs"] is None:
-        # no steady state: all three families keep ||y_{n+1} - y_n|| >= ||y_1 - y_0|| (constant / doubling / isometry)
-        y0, y1 = exact_state(dv, 0), exact_state(dv, 1)
-        dvv = [b - a for a, b in zip(y0, y1)]
-        if case["rel"]:
-            dvv = [x / a for x, a in zip(dvv, y0)] if all(a != 0 for a in y0) else None
-        assert dvv is None or norm_sq(dvv) >= tol2
-        return None, []
-    prev = exact_state(dv, 0)
-    for n in range(1, 200):
-        cur = exact_state(dv, n)
+    it = flow(dv, y_start)
+    prev = next(it)
+    for n in range(1, max_steps + 1):
+        cur = next(it)
+        if cur is None:
+            return None, ratios, prev, n
         dvv = [b - a for a, b in zip(prev, cur)]
         if case["rel"]:
             if any(a == 0 for a in prev):
@@ -239,20 +320,20 @@ def oracle(case, dv, max_steps=1000):
                 prev = cur
                 continue
             dvv = [x / a for x, a in zip(dvv, prev)]
-        r = math.sqrt(norm_sq(dvv) / tol2)
-        ratios.append(r)
-        if r < 1:
-            return n, ratios
+        q = norm_sq(dvv) / tol2
+        ratios.append(math.sqrt(float(q)) if q < 10 ** 300 else float("inf"))
+        if q < 1:
+            return n, ratios, prev, None
         prev = cur
-    raise AssertionError("stable network did not converge in 200 steps")
+    return None, ratios, prev, None
 
 
-def bound(case, dv, n):
+def bound(case, dv, before):
     """C15_contraction_close in eigen-coordinates, carried to the Euclidean norm by kappa(P); plus what the
     integrator itself may be off (LSODA rtol 1e-6 accumulated over the run)"""
     scale = 1.0
     if case["rel"]:
-        scale = max(abs(float(x)) for x in exact_state(dv, n - 1))
+        scale = max(abs(float(x)) for x in before)
     xs_inf = max(abs(float(x)) for x in dv["xs"])
     return dv["kappa"] * dv["c"] / (1 - dv["c"]) * float(dv["tol"]) * scale + 2e-5 * max(1.0, xs_inf)
 
@@ -272,76 +353,103 @@ def prior_rows(case):
     return 0 if not p else p[2] + 1
 
 
-def canon_real(case, dv, r, n_exact, ratios=()):
+def canon_real(case, dv, r, orc):
+    n_exact, ratios, before, t_start = orc[:4]
+    o = {}
+    if case.get("prior"):
+        o["start_ok"] = start_ok(case, dv, r)
+    if "scan_rows" in r:
+        o["scan"] = ["nan" if x is None else "state" for x in r["scan_rows"]]
     if r["outcome"] != "steady":
-        o = {"outcome": r["outcome"]}
+        o["outcome"] = r["outcome"]
         if "unwrap" in r:
             o["unwrap"] = r["unwrap"]
-        if "scan_rows" in r:
-            o["scan"] = ["nan" if x is None else "state" for x in r["scan_rows"]]
         return o
-    n = round(r["t"] / 100)
-    o = {"outcome": "steady", "n": n, "rows": r["rows"]}
+    # reported time = (time the search started at) + step_size * n, in ABSOLUTE time
+    steps = (F(r["t"]) - t_start) / STEP
+    n = int(steps) if steps.denominator == 1 else str(steps)
+    o.update(outcome="steady", n=n, t=str(F(r["t"])), rows=r["rows"])
     if dv["xs"] is not None:
-        bd = bound(case, dv, max(n, 1))
+        bd = bound(case, dv, before)
         dist = math.sqrt(sum((a - float(b)) ** 2 for a, b in zip(r["y"], dv["xs"])))
         o["close"] = dist <= bd
         amax = max(abs(a) for row in dv["A"] for a in row)
         o["balanced"] = max(abs(f) for f in r["flux"]) <= amax * len(r["y"]) * bd + 1e-12
-        if n_exact is not None and lenient(case, dv):
+        if n_exact is not None and lenient(case, dv) and isinstance(n, int):
             # tolerance not above the integrator's own accuracy: the index is decided by integration noise; accept
             # any index from the first step whose exact difference is below tol + 2*noise
             lim = 1 + 2 * noise_of(case, dv) / float(dv["tol"])
             n_lo = next(i + 1 for i, x in enumerate(ratios) if x < lim)
-            if n_lo <= n:
+            if n_lo <= n <= MAX_STEPS:
                 o["n"] = n_exact
+                o["t"] = str(t_start + STEP * n_exact)
     else:
         o["close"] = False
         o["balanced"] = False
-    if "scan_rows" in r:
-        o["scan"] = ["nan" if x is None else "state" for x in r["scan_rows"]]
     return o
 
 
-def canon_model(case, dv, m):
+def canon_model(case, dv, m, orc):
+    n_exact, ratios, before, t_start = orc[:4]
     loop = m["loop"]
+    o = {}
+    if case.get("prior"):
+        o["start_ok"] = True  # the earlier run is not part of the model: it is fed the state that run reached
+    if case.get("scan"):
+        o["scan"] = ["nan" if m["row"] is None else "state"] * 2
     if loop["outcome"] != "steady":
-        o = {"outcome": m["result"][1], "unwrap": m["result"][1]}
-        if case.get("scan"):
-            o["scan"] = ["nan" if m["row"] is None else "state"] * 2
+        o.update(outcome=m["result"][1], unwrap=m["result"][1])
         return o
-    n = loop["n"]
     rows = m["result"][1]
-    o = {"outcome": "steady", "n": rows[-1][0] // 100, "rows": len(rows)}
+    o.update(outcome="steady", n=loop["n"], t=str(F(rows[-1][0])), rows=len(rows))
     if dv["xs"] is not None:
         y = [F(x) for x in loop["y"]]
         dist = math.sqrt(float(norm_sq([a - b for a, b in zip(y, dv["xs"])])))
-        o["close"] = dist <= bound(case, dv, max(n, 1))
+        o["close"] = dist <= bound(case, dv, before)
         o["balanced"] = o["close"]
     else:
         o["close"] = False
         o["balanced"] = False
-    if case.get("scan"):
-        o["scan"] = ["nan" if m["row"] is None else "state"] * 2
     return o
 
 
-def spec(case, dv, n_exact):
-    if n_exact is None:
-        o = {"outcome": "NoSteadyState", "unwrap": "NoSteadyState"}
+def spec(case, dv, orc):
+    n_exact, ratios, before, t_start = orc[:4]
+    o = {}
+    if case.get("prior"):
+        o["start_ok"] = True
+    if orc[4] is not None and n_exact is None:
+        # the trajectory reaches a singularity within the budget: the solver cannot pass it, the search must end in the
+        # solver's failure — never in a state
+        o.update(outcome="IntegrationFailure", unwrap="IntegrationFailure")
         if case.get("scan"):
             o["scan"] = ["nan", "nan"]
         return o
-    o = {"outcome": "steady", "n": n_exact, "rows": prior_rows(case) + 1, "close": True, "balanced": True}
+    if dv["xs"] is None or n_exact is None:
+        # a network WITHOUT a steady state must be reported as failure whatever the criterion says; a stable one that
+        # does not meet the criterion within the budget likewise
+        o.update(outcome="NoSteadyState", unwrap="NoSteadyState")
+        if case.get("scan"):
+            o["scan"] = ["nan", "nan"]
+        return o
+    o.update(outcome="steady", n=n_exact, t=str(t_start + STEP * n_exact), rows=prior_rows(case) + 1, close=True,
+             balanced=True)
     if case.get("scan"):
         o["scan"] = ["state", "state"]
     return o
 
 
-def model_request(case, dv):
+def model_request(case, dv, r):
     q = lambda x: str(F(x))  # noqa: E731
-    return {"op": "c15", "copies": "gen", "C": [[q(x) for x in row] for row in dv["C"]], "d": [q(x) for x in dv["d"]],
-            "y0": [q(x) for x in dv["y0"]], "tol": q(dv["tol"]), "rel": case["rel"], "prior": prior_rows(case)}
+    t_start, y_start = start_of(case, dv, r)
+    rq = {"op": "c15", "copies": "gen", "C": [[q(x) for x in row] for row in dv["C"]], "d": [q(x) for x in dv["d"]],
+          "y0": [q(x) for x in y_start], "orig": [q(x) for x in dv["y0"]], "tol": q(dv["tol"]), "rel": case["rel"],
+          "prior": prior_rows(case), "t0": q(t_start)}
+    if dv.get("blow"):
+        rq["blowup"] = True
+    if case.get("override"):  # update_variables: a new integrator at shifted time 0, results shifted by the time reached
+        rq.update(t0="0", shift=q(t_start))
+    return rq
 
 
 # ----------------------------------------------------------------------------- generator
@@ -367,28 +475,62 @@ def gen_case(rng):
         c = gen_stable(rng)
     elif r < 0.84:
         n = rng.choice([1, 2])
-        c = {"kind": "accumulate", "b": [rng.choice([1, 2, 5]) for _ in range(n)],
+        # also a slow drift (2^-30, 2^-20 per time unit): below some tolerances per search step, above others
+        c = {"kind": "accumulate", "b": [rng.choice([1, 2, 5, "1/1073741824", "1/1048576"]) for _ in range(n)],
              "y0": [rng.choice([0, 0, 1, 2, 10]) for _ in range(n)]}
-    elif r < 0.92:
-        c = {"kind": "grow", "y0": [rng.choice([1, 2])]}
+    elif r < 0.89:
+        c = {"kind": "grow", "y0": [rng.choice([1, 2])], "g": rng.choice([1, 1, 8, 16])}
+    elif r < 0.93:
+        nz = rng.choice([0, 0, 1])
+        c = {"kind": "blowup", "x0": rng.choice(["1/250", "1/150", "1/350", "1/125", "1", "2", "3/2"]),
+             "ms": rng.sample([1, 2, 3], nz), "zs": [rng.choice(["1", "2"]) for _ in range(nz)],
+             "z0": [rng.choice(["5", "3", "0"]) for _ in range(nz)]}
     else:
         c = {"kind": "rotate", "y0": [rng.choice([3, 4, 10]), rng.choice([1, 4])]}
     if c["kind"] != "stable":
         c.update(tol_exp=rng.randint(3, 9), rel=rng.random() < 0.4, y0mode=rng.choice(["default", "user"]))
     c["scan"] = c["tol_exp"] == 6 and rng.random() < 0.5  # scan.steady_state only offers the default tolerance
     # multi-step use of ONE simulator: results of an earlier call are already stored / a later call follows
+    if c["kind"] == "stable" and rng.random() < 0.25:
+        c["late_par"] = "5"  # a parameter change AFTER the result was taken, before its fluxes are read
     r = rng.random()
-    if r < 0.25:
+    if c["kind"] == "blowup" or c.get("g", 1) > 1:
+        pass  # an earlier run over the singularity / into overflow fails by itself: not this property
+    elif r < 0.25:
         # short and LONG earlier runs (longer than any search needs), optionally a parameter change in between
         c["prior"] = [rng.choice(["simulate", "time_course"]), rng.choice([1, 5, 20, 500, 3000, 20000]), rng.choice([1, 3, 6])]
+        c["scan"] = False  # scan.steady_state starts fresh simulators: a different start state
         if c["kind"] == "stable" and rng.random() < 0.5:
             c["shift"] = [str(rng.choice([F(1, 2), 1, 2, -F(1, 4)])) for _ in c["ms"]]
+        if rng.random() < 0.3:  # the user overrides a variable after the earlier run (results are time-shifted)
+            c["override"] = str(rng.choice([1, 3, F(1, 2), 8]))
     elif r < 0.3 and c["kind"] != "stable":
         c["post"] = rng.choice([1, 5])
     return c
 
 
 FIXED = [
+    # F-C15-4: a drift slower than the tolerance per search step (dx/dt = 2^-30, tolerance 1e-6) is reported as steady;
+    # the same drift is refused at tolerance 1e-9
+    {"kind": "accumulate", "b": ["1/1073741824"], "y0": [1], "tol_exp": 6, "rel": False, "y0mode": "default", "scan": True},
+    {"kind": "accumulate", "b": ["1/1073741824"], "y0": [1], "tol_exp": 9, "rel": False, "y0mode": "default", "scan": False},
+    # F-C15-3: finite-time blow-up (dx/dt = x^2): the solver gives up, its frozen state must not be reported as steady
+    {"kind": "blowup", "x0": "1", "ms": [], "zs": [], "z0": [], "tol_exp": 6, "rel": False, "y0mode": "default", "scan": True},
+    {"kind": "blowup", "x0": "1/250", "ms": [1], "zs": ["1"], "z0": ["5"], "tol_exp": 3, "rel": True, "y0mode": "user",
+     "scan": False},
+    {"kind": "grow", "y0": [1], "g": 16, "tol_exp": 6, "rel": False, "y0mode": "default", "scan": False},
+    # the result's fluxes are read after the user has changed a parameter on the simulator
+    {"kind": "stable", "P": [[1, 0], [1, 1]], "ms": [1, 2], "xstar": ["2", "1"], "z0": ["-2", "1"], "tol_exp": 5,
+     "rel": False, "y0mode": "default", "scan": False, "late_par": "5"},
+    # F-C15-2: a variable that accumulates for ever meets the RELATIVE criterion once 100*|b|/|y| < tol: at the first
+    # step from a large value, at the very last step of the budget from 200, after an earlier long run
+    {"kind": "accumulate", "b": [1], "y0": [100001], "tol_exp": 3, "rel": True, "y0mode": "default", "scan": False},
+    {"kind": "accumulate", "b": [1], "y0": [200], "tol_exp": 3, "rel": True, "y0mode": "user", "scan": False},
+    {"kind": "accumulate", "b": [1], "y0": [100], "tol_exp": 3, "rel": True, "y0mode": "default", "scan": False},
+    {"kind": "accumulate", "b": [2], "y0": [10], "tol_exp": 3, "rel": True, "y0mode": "default", "scan": False,
+     "prior": ["simulate", 500, 3]},
+    {"kind": "accumulate", "b": [1, 2], "y0": [1, 0], "tol_exp": 3, "rel": True, "y0mode": "default", "scan": False,
+     "prior": ["time_course", 20000, 6]},
     # a long time course, a parameter change that moves the steady state, then the search on the same simulator
     {"kind": "stable", "P": [[1]], "ms": [2], "xstar": ["2"], "z0": ["3"], "tol_exp": 5, "rel": False,
      "y0mode": "default", "scan": False, "prior": ["simulate", 3000, 3], "shift": ["2"]},
@@ -409,41 +551,67 @@ FIXED = [
 
 
 def shape_of(case):
-    n = len(case.get("ms") or case.get("b") or case["y0"])
+    n = len(derive(case)["y0"])
     seq = ":after-" + case["prior"][0] if case.get("prior") else (":then-simulate" if case.get("post") else "")
     seq += ":param-change" if case.get("shift") else ""
+    seq += ":override" if case.get("override") else ""
+    seq += ":fluxes-after-par-change" if case.get("late_par") else ""
+    seq += f":x{2 ** case['g']}-per-step" if case.get("g", 1) > 1 else ""
     zero = ":from0" if any(F(y) == 0 for y in derive(case)["y0"]) else ""
     return f"{case['kind']}:dim{n}:tol1e-{case['tol_exp']}:{'rel' if case['rel'] else 'abs'}:{case['y0mode']}{zero}{seq}"
 
 
 # ----------------------------------------------------------------------------- verdicts
-def judge_case(ctx, case, r, m):
+def oracle_case(args):
+    case, r = args
     dv = derive(case)
-    n_exact, ratios = oracle(case, dv)
-    margin = 0.05 if dv["xs"] is None or lenient(case, dv) else max(0.05, noise_of(case, dv) / float(dv["tol"]))
+    t_start, y_start = start_of(case, dv, r)
+    n_exact, ratios, before, fail_at = oracle(case, dv, y_start)
+    return n_exact, ratios, before, t_start, fail_at
+
+
+def judge_case(ctx, case, r, m, orc):
+    dv = derive(case)
+    n_exact, ratios = orc[0], orc[1]
+    if case["kind"] == "accumulate":
+        margin = 1e-6  # dx/dt = b is integrated exactly up to rounding; consecutive ratios differ by >= 1e-3 relative
+    elif dv["xs"] is None or lenient(case, dv):
+        margin = 0.05
+    else:
+        margin = max(0.05, noise_of(case, dv) / float(dv["tol"]))
     if any(abs(x - 1) < margin for x in ratios):
         ctx.hist["skipped_near_threshold"] = ctx.hist.get("skipped_near_threshold", 0) + 1
         return
     ctx.count(case, shape_of(case), nontrivial=True)
     if dv["xs"] is not None and lenient(case, dv):
         ctx.hist["index_window_only"] = ctx.hist.get("index_window_only", 0) + 1
-    R = canon_real(case, dv, r, n_exact, ratios)
-    S = spec(case, dv, n_exact)
-    M = None if m is None else canon_model(case, dv, m)
-    aliased = R.get("outcome") == "steady" and R.get("n") == 2
-    ctx.judge(case, R, S, M, finding="F-C15-1" if aliased else None,
-              what="simulate_to_steady_state(...).get_result() vs closed-form flow")
+    R = canon_real(case, dv, r, orc)
+    S = spec(case, dv, orc)
+    M = None if m is None else canon_model(case, dv, m, orc)
+    finding = None
+    if R.get("outcome") == "steady" and R.get("n") == 2 and r.get("start") is None:
+        finding = "F-C15-1"
+    # F-C15-2 / F-C15-4: the criterion is met by a variable that keeps accumulating (relative: |b|*100/|y| < tol; absolute:
+    # drift |b|*100 < tol) — only when the independent oracle finds the criterion met at exactly the step the real run reports
+    if case["kind"] == "accumulate" and n_exact is not None and R.get("n") == n_exact \
+            and R.get("outcome") == "steady" and R.get("start_ok", True):
+        finding = "F-C15-2" if case["rel"] else "F-C15-4"
+        key = "rel_criterion_met_while_accumulating" if case["rel"] else "abs_criterion_met_by_slow_drift"
+        ctx.hist[key] = ctx.hist.get(key, 0) + 1
+    ctx.judge(case, R, S, M, finding=finding,
+              what="simulate_to_steady_state(...).get_result() vs closed-form flow from the state the simulator holds")
 
 
 def evaluate(ctx, cases):
     import mxlpy  # noqa: F401  imported once; forked workers inherit it
     with cf.ProcessPoolExecutor(max_workers=min(16, os.cpu_count() or 4)) as ex:
         Rs = list(ex.map(real_case, cases, chunksize=4))
+        Os = list(ex.map(oracle_case, zip(cases, Rs), chunksize=4))
     if ctx.driver_ok:
-        Ms = driver.call_batch([model_request(c, derive(c)) for c in cases])
+        Ms = driver.call_batch([model_request(c, derive(c), r) for c, r in zip(cases, Rs)])
     else:
         Ms = [None] * len(cases)
-    return Rs, Ms
+    return Rs, Ms, Os
 
 
 # ----------------------------------------------------------------------------- scans: rows stay with THEIR parameters
@@ -577,9 +745,9 @@ def setup(ctx):
 def run(ctx):
     setup(ctx)
     cases = list(FIXED) + [gen_case(ctx.rng) for _ in range(ctx.n(260, 6000))]
-    Rs, Ms = evaluate(ctx, cases)
-    for c, r, m in zip(cases, Rs, Ms):
-        judge_case(ctx, c, r, m)
+    Rs, Ms, Os = evaluate(ctx, cases)
+    for c, r, m, o in zip(cases, Rs, Ms, Os):
+        judge_case(ctx, c, r, m, o)
     fixed_scans = [
         # a cache that already holds rows 1 and 3 (an earlier run over a sub-grid), then the full scan
         {"scan_rows": [[1, 0], [0, 1], [3, 0], [2, 0]], "labels": [0, 1, 2, 3], "xs": 3, "x0": 1, "rel": False,
@@ -596,6 +764,6 @@ def replay(ctx, rp):
     if "scan_rows" in case:
         run_scans(ctx, [case])
         return
-    Rs, Ms = evaluate(ctx, [case])
-    print("R =", Rs[0], "\nM =", Ms[0])
-    judge_case(ctx, case, Rs[0], Ms[0])
+    Rs, Ms, Os = evaluate(ctx, [case])
+    print("R =", Rs[0], "\nM =", Ms[0], "\noracle: n =", Os[0][0], "from t =", Os[0][3])
+    judge_case(ctx, case, Rs[0], Ms[0], Os[0])
